@@ -203,6 +203,46 @@ func inlineNewHelpers(roots []*packages.Package, byPath map[string]*packages.Pac
 	return total, nil
 }
 
+// sameResultTypes: the helper's result types are identical to those of the function (declaration or literal) that
+// encloses pos. Only then may the helper's `return e` become the caller's: with merely assignable types the implicit
+// conversion would move (a nil *T returned into an interface result is a non-nil interface; written at the caller's
+// return it would be the nil interface).
+func (in *inliner) sameResultTypes(c *inlCand, fd *ast.FuncDecl, pos token.Pos) bool {
+	ft := fd.Type
+	ast.Inspect(fd, func(m ast.Node) bool {
+		if fl, ok := m.(*ast.FuncLit); ok && fl.Pos() <= pos && pos < fl.End() {
+			ft = fl.Type
+		}
+		return true
+	})
+	var want []types.Type
+	if ft.Results != nil {
+		for _, f := range ft.Results.List {
+			t := in.info.TypeOf(f.Type)
+			k := len(f.Names)
+			if k == 0 {
+				k = 1
+			}
+			for i := 0; i < k; i++ {
+				want = append(want, t)
+			}
+		}
+	}
+	if c.obj == nil || c.obj.Type() == nil {
+		return false
+	}
+	sig, ok := c.obj.Type().Underlying().(*types.Signature)
+	if !ok || sig.Results().Len() != len(want) {
+		return false
+	}
+	for i, w := range want {
+		if w == nil || !types.Identical(w, sig.Results().At(i).Type()) {
+			return false
+		}
+	}
+	return true
+}
+
 // stripUnusedGeneratedLabels removes `T_inlN:` labels no branch statement refers to; it returns how many it removed.
 func stripUnusedGeneratedLabels(roots []*packages.Package) (n, kept int) {
 	for _, pk := range roots {
@@ -947,7 +987,7 @@ func (in *inliner) rewriteStmt(st ast.Stmt, fd *ast.FuncDecl, file *ast.File, c 
 				if nres == 0 {
 					return nil, false
 				}
-				if !hasTopDefer(in.bodyOf(c)) {
+				if !hasTopDefer(in.bodyOf(c)) && in.sameResultTypes(c, fd, s.Pos()) {
 					in.tailMode = true
 					repl, ok := in.expand(ce, nil, token.ILLEGAL, fd, file, c)
 					in.tailMode = false
